@@ -2,7 +2,7 @@
 from world import amounts, specials
 
 ID = "C01"
-LEAN_MODULES = ["QtyModel.Props.C01", "QtyModel.Props.Backends", "QtyModel.Props.OracleSound"]
+LEAN_MODULES = ["QtyModel.Props.C01", "QtyModel.Props.Backends", "QtyModel.Props.OracleSound", "QtyModel.Props.TieConv"]
 HARNESS_GROUPS = ()
 RULE = ("every ordered unit pair (incl. same unit) of every quantity type with a reference unit (catalogue, "
         "dimensionless, astronomical in f64, synthetic) x amount classes; op conv = convert + equiv_amount; "
